@@ -187,6 +187,12 @@ def r18_6(ctx):
                         tnames |= {x.id for x in ast.walk(t) if isinstance(x, ast.Name)}
                     if not any('tol' in nm or nm in TOL_WORDS for nm in tnames - {v}):
                         continue
+                    # a fixed LIMIT compared with a quantity that moves in the loop (tolcount >= max_tolcount) is not a budget:
+                    # a budget is the moving side of a comparison with a fixed tolerance
+                    moving = {x.target.id for x in ast.walk(l) if isinstance(x, ast.AugAssign) and isinstance(x.target, ast.Name)} | \
+                             {t.id for x in ast.walk(l) if isinstance(x, ast.Assign) for t in x.targets if isinstance(t, ast.Name)}
+                    if (tnames - {v}) & moving and v not in moving:
+                        continue
                     n += 1
                     writes = [s for s in ast.walk(l) if (isinstance(s, ast.AugAssign) and isinstance(s.target, ast.Name) and s.target.id == v)
                               or (isinstance(s, ast.Assign) and any(isinstance(t, ast.Name) and t.id == v for t in s.targets))]
